@@ -12,6 +12,7 @@ import (
 	"verifharness/drive"
 	"verifharness/gen"
 	"verifharness/spec"
+	"verifharness/stats"
 )
 
 // C02 — stored fields, external ids and id lookup round-trip.
@@ -402,3 +403,43 @@ var c02 = Check[storedCase]{
 func init() { c02.register() }
 
 func TestC02(t *testing.T) { c02.Rapid(t) }
+
+// Deterministic batch with two heavy stored records between two small ones: one whose meta part
+// exceeds 127 bytes next to more than 2 MiB of incompressible data (a 2-byte and a 4-byte length
+// in the record header), and one with several thousand stored values next to 20 KiB of data
+// (two 3-byte lengths). In memory and re-opened.
+func TestC02Fixed(t *testing.T) {
+	col := stats.New("C02", "stored")
+	defer col.Write()
+	noise := func(n int, seed uint32) []byte {
+		v := make([]byte, n)
+		x := seed*2654435761 + 1
+		for i := range v {
+			x ^= x << 13
+			x ^= x >> 17
+			x ^= x << 5
+			v[i] = byte(x >> 11)
+		}
+		return v
+	}
+	small := func(id string) spec.DocSpec {
+		return spec.DocSpec{ID: spec.B(id), Fields: []spec.FieldSpec{{Name: "body", Type: 't', Stored: true, Value: []byte("v" + id), Len: 1, Tokens: []spec.TokenSpec{{Term: spec.B(id), Freq: 1}}}}}
+	}
+	heavyA := spec.DocSpec{ID: "b"}
+	for i := 0; i < 40; i++ {
+		heavyA.Fields = append(heavyA.Fields, spec.FieldSpec{Name: "tag", Type: 't', Stored: true, Value: []byte(fmt.Sprintf("tag%02d", i)), AP: []uint64{uint64(i), uint64(i * 3)}})
+	}
+	heavyA.Fields = append(heavyA.Fields, spec.FieldSpec{Name: "blob", Type: 't', Stored: true, Value: noise(3<<20, 1)})
+	heavyB := spec.DocSpec{ID: "c"}
+	for i := 0; i < 4200; i++ {
+		heavyB.Fields = append(heavyB.Fields, spec.FieldSpec{Name: "tag", Type: 't', Stored: true, Value: []byte{byte('a' + i%26)}, AP: []uint64{uint64(i)}})
+	}
+	heavyB.Fields = append(heavyB.Fields, spec.FieldSpec{Name: "blob", Type: 't', Stored: true, Value: noise(20<<10, 2)})
+	b := &spec.BatchSpec{Docs: []spec.DocSpec{small("a"), heavyA, heavyB, small("d")}}
+	for _, mm := range []bool{false, true} {
+		c := storedCase{Batch: b, Mmap: mm, IDLists: [][]spec.B{{"a", "c"}, {"d", "b", "zz"}}}
+		sc := storedCase{Batch: &spec.BatchSpec{Docs: []spec.DocSpec{small("a"), small("d")}}, Mmap: mm}
+		col.CaseHash(stats.HashJSON(fmt.Sprintf("fixed-heavy-records-mmap=%v", mm)), true, []string{"record-header-lengths-of-2+4-and-3+3-bytes", "value>64KiB"}, func() any { return sampleOf(sc) })
+		reportBig(t, col, "C02", "stored", c, safeRun(c02, c))
+	}
+}
